@@ -12,6 +12,7 @@
 //@ rwall R8 re⟦\bfs::rename\(⟧ => ⟦os_rename(⟧
 //@ rwall R8 re⟦\bfs::create_dir_all\(⟧ => ⟦os_create_dir_all(⟧
 //@ rwall R8 re⟦\bFile::create\(⟧ => ⟦os_file_create(⟧
+//@ rwall R8 re⟦\bFile::options\(\)⟧ => ⟦OsOpenOptions::new()⟧
 //@ rwall R8 re⟦\bstd::fs::read_to_string\(⟧ => ⟦os_read_to_string(⟧
 //@ rwall R8 re⟦\bfs::remove_dir_all\(⟧ => ⟦os_remove_dir_all(⟧
 //@ rwall R8 re⟦\bstd::env::set_current_dir\(⟧ => ⟦os_set_current_dir(⟧
@@ -72,6 +73,18 @@ impl OsFile {
     #[verifier::external_body] pub fn write_all(&mut self, data: &[u8]) -> (r: RvResult<()>) ensures final(self).of() == old(self).of(), r is Ok ==> os_written(old(self).of(), data@) { unimplemented!() }
     #[verifier::external_body] pub fn sync_all(&mut self) -> (r: RvResult<()>) ensures final(self).of() == old(self).of() { unimplemented!() }
 }
+// std::fs::OpenOptions as used through File::options(): create + truncate + write is File::create
+pub struct OsOpenOptions { pub w: bool, pub c: bool, pub t: bool, pub a: bool, pub r: bool }
+impl OsOpenOptions {
+    pub fn new() -> (o: OsOpenOptions) ensures !o.w && !o.c && !o.t && !o.a && !o.r { OsOpenOptions { w: false, c: false, t: false, a: false, r: false } }
+    pub fn write(self, y: bool) -> (o: OsOpenOptions) ensures o == (OsOpenOptions { w: y, ..self }) { OsOpenOptions { w: y, ..self } }
+    pub fn create(self, y: bool) -> (o: OsOpenOptions) ensures o == (OsOpenOptions { c: y, ..self }) { OsOpenOptions { c: y, ..self } }
+    pub fn truncate(self, y: bool) -> (o: OsOpenOptions) ensures o == (OsOpenOptions { t: y, ..self }) { OsOpenOptions { t: y, ..self } }
+    pub fn append(self, y: bool) -> (o: OsOpenOptions) ensures o == (OsOpenOptions { a: y, ..self }) { OsOpenOptions { a: y, ..self } }
+    pub fn read(self, y: bool) -> (o: OsOpenOptions) ensures o == (OsOpenOptions { r: y, ..self }) { OsOpenOptions { r: y, ..self } }
+    #[verifier::external_body]
+    pub fn open<T: PathArg>(self, p: T) -> (r: RvResult<OsFile>) ensures r is Ok ==> r->Ok_0.of() == p.pc() && ((self.w && self.c && self.t) ==> os_created_file(p.pc())) { unimplemented!() }
+}
 #[verifier::external_body] pub fn os_file_create<T: PathArg>(p: T) -> (r: RvResult<OsFile>) ensures r is Ok ==> os_created_file(p.pc()) && r->Ok_0.of() == p.pc() { unimplemented!() }
 #[verifier::external_body] pub fn os_read_to_string<T: PathArg>(p: T) -> (r: RvResult<Str>) ensures r is Ok ==> r->Ok_0@ == os_file_text(p.pc()) { unimplemented!() }
 #[verifier::external_body] pub fn os_set_permissions<T: PathArg>(p: T, mode: u32) -> (r: RvResult<()>) ensures r is Ok ==> os_mode_set(p.pc(), mode) { unimplemented!() }
@@ -96,6 +109,8 @@ impl PathBuf {
     pub fn mash(&self, p: PathBuf) -> (r: PathBuf) ensures r.comps() == spec_mash(self.comps(), p.comps()) { unimplemented!() }
     #[verifier::external_body]
     pub fn is_absolute(&self) -> (b: bool) ensures b == comps_absolute(self.comps()) { unimplemented!() }
+    // PathExt::name (file name without extension; unspecified here)
+    #[verifier::external_body] pub fn name(&self) -> (r: RvResult<NameStr>) { unimplemented!() }
     // PathExt::mash with a single name (proved in unit path_helpers)
     #[verifier::external_body]
     pub fn mash_n(&self, n: NameStr) -> (r: PathBuf) ensures self.abs_clean() ==> r.abs_clean() && r@ == self@.push(n@) && r.comps() == abs_comps(r@) { unimplemented!() }
@@ -142,7 +157,7 @@ impl Stdfs {
 impl Stdfs {
 // ---- mutators: which request is sent to the OS, for which absolute path
 //@ item move_p file=src/sys/fs/stdfs/mod.rs block="impl Stdfs" fn=move_p props=C09,C05,C12
-//@ rw R1 * ⟦dst_root.mash(src_path.base()?)⟧ => ⟦dst_root.mash_n(src_path.base()?)⟧
+//@ rw R1 * re⟦dst_root\.mash\(src_path\.(\w+)\(\)\?\)⟧ => ⟦dst_root.mash_n(src_path.\1()?)⟧
     pub fn move_p(src: &PathBuf, dst: &PathBuf) -> (r: RvResult<()>)
         ensures r is Ok ==> ({
             let a = std_abs(src.comps()); let b = std_abs(dst.comps());
@@ -309,6 +324,9 @@ impl VfsEntry {
     #[verifier::external_body] pub fn is_dir(&self) -> (r: bool) ensures r == self.xdir() { unimplemented!() }
     #[verifier::external_body] pub fn mode(&self) -> (r: u32) ensures r == self.xmode() { unimplemented!() }
     #[verifier::external_body] pub fn alt(&self) -> (r: &PathBuf) ensures r.comps() == self.xalt() { unimplemented!() }
+    // Entry default methods: link && dir / link && file
+    #[verifier::external_body] pub fn is_symlink_dir(&self) -> (r: bool) ensures r == (self.xlink() && self.xdir()) { unimplemented!() }
+    #[verifier::external_body] pub fn is_symlink_file(&self) -> (r: bool) ensures r == (self.xlink() && self.xfile()) { unimplemented!() }
 }
 #[verifier::external_body] pub struct EntriesIt { x: u8 }
 impl EntriesIt {
@@ -382,7 +400,7 @@ pub open spec fn copy_entry_done(e: &VfsEntry, a: PathV, b: PathV, into: bool, o
 impl Stdfs {
 //@ item _copy file=src/sys/fs/stdfs/mod.rs block="impl Stdfs" fn=_copy props=C09,C11,C12
 //@ sig fn _copy(cp: sys::CopyOpts) -> RvResult<()>
-//@ rw R1 1 ⟦src_root == dst_root⟧ => ⟦src_root.eq_abs(&dst_root)⟧
+//@ rw R1 * re⟦\b(cp\.src|cp\.dst|src_root|dst_root) == (cp\.src|cp\.dst|src_root|dst_root)\b⟧ => ⟦\1.eq_abs(&\2)⟧
 //@ rw R1 + re⟦dst_root\.mash\(⟧ => ⟦dst_root.mash_rel(⟧
 //@ rw R8 1 ⟦Stdfs::symlink(dst_path, src.alt())?;⟧ => ⟦Stdfs::symlink_req(dst_path, src.alt())?;⟧
 //@ rw R8 + re⟦Stdfs::mkdir_m\(⟧ => ⟦Stdfs::mkdir_m_req(⟧
@@ -469,11 +487,14 @@ pub fn os_chmod_request<T: PathArg>(p: T, mode: u32) -> (r: RvResult<()>)
     ensures r is Ok ==> os_mode_set(p.pc(), mode)
 { unimplemented!() }
 impl Stdfs {
-//@ item chmod_pre_op file=src/sys/fs/stdfs/mod.rs block="impl Stdfs" fn=_chmod closure=1 props=C11,C12
+//@ item chmod_pre_op file=src/sys/fs/stdfs/mod.rs block="impl Stdfs" fn=_chmod closure=1 props=C11,C10,C01,C12
 //@ sig closure |x| in fn _chmod(opts: ChmodOpts) -> RvResult<()>
 //@ rw R8 + re⟦\bfs::set_permissions\(([^,]+), fs::Permissions::from_mode\(([^()]+)\)\)⟧ => ⟦os_chmod_request(\1, \2)⟧
 //@ rw R8 + re⟦\bsys::mode\(⟧ => ⟦sys_mode(⟧
 //@ rw R8 + re⟦\bsys::revoking_mode\(⟧ => ⟦revoking_mode(⟧
+//@ ins? before re⟦os_chmod_request\(x\.path\(\)⟧
+                proof { assert(!x.xlink() || m.follow); }      //@ clause stdfs.chmod.pre_op_never_touches_a_link_unless_following [C11,C10]
+//@ endins
     pub fn chmod_pre_op(x: &VfsEntry, m: &ChmodOpts) -> (r: RvResult<()>)
         ensures r is Ok ==> ({
             let m1 = spec_mode(x.xlink(), x.xdir(), x.xfile(), x.xmode(), m.dirs, m.sym@);
@@ -483,7 +504,7 @@ impl Stdfs {
         }),
 //@ body
 
-//@ item _chmod file=src/sys/fs/stdfs/mod.rs block="impl Stdfs" fn=_chmod props=C11,C12
+//@ item _chmod file=src/sys/fs/stdfs/mod.rs block="impl Stdfs" fn=_chmod props=C11,C10,C01,C12
 //@ sig fn _chmod(opts: ChmodOpts) -> RvResult<()>
 //@ rw R8 + re⟦\bfs::set_permissions\(([^,]+), fs::Permissions::from_mode\(([^()]+)\)\)⟧ => ⟦os_chmod_request(\1, \2)⟧
 //@ rw R13 1 re⟦\.pre_op\(move \|x\| \{.*?\}\);⟧ => ⟦.pre_op_set();⟧
@@ -500,6 +521,9 @@ impl Stdfs {
                 // directories use the `dirs` octal / expression, files the `files` one; a symlink only when following; 0 = nothing to do
                 assert(v is Some && (((!src.xlink() || opts.follow) && v->Some_0 != src.xmode() && v->Some_0 != 0) ==> os_mode_set(abs_comps(src.xpath()), v->Some_0)));      //@ clause stdfs.chmod.requests_the_kind_specific_mode_for_each_yielded_entry [C11]
             }
+//@ endins
+//@ ins? before re⟦os_chmod_request\(src\.path\(\)⟧
+                proof { assert(!src.xlink() || opts.follow); }      //@ clause stdfs.chmod.never_requests_a_change_for_a_link_unless_following [C11,C10]
 //@ endins
     pub fn _chmod(opts: ChmodOpts) -> (r: RvResult<()>)
 //@ body
